@@ -13,7 +13,7 @@ def _runs(tier):
         for n in _Q:   # every query, transformer and converting constructor on every (value class x status) of depth <= 2
             runs.append(_r(n, ["--dim", "2", "--depth", "2", "--consts", "small"], 600))
         for n in ("bds_mpq", "oct_mpq"):   # binary predicates in dimension 3 (disjointness needs three variables)
-            runs.append(_r(n, ["--dim", "3", "--mindim", "3", "--depth", "2", "--consts", "tiny", "--what", "binq", "--poolq-depth", "2"], 300))
+            runs.append(_r(n, ["--dim", "3", "--mindim", "3", "--depth", "2", "--consts", "tiny", "--what", "binq", "--poolq-depth", "2", "--poolsigs", "1"], 300))
         return runs
     for n in _Q:
         runs.append(_r(n, ["--dim", "2", "--depth", "2", "--consts", "full"], 2400))                                   # full constant menu, full operator menus
